@@ -184,6 +184,7 @@ func runC11(c *Ctx, scAny any) {
 	var n int
 	var forged []byte
 	modDesc := sc.Mod
+	editCls := "edit"
 	finished := false
 	step := func() string {
 		if !primed && phase == 0 {
@@ -226,7 +227,20 @@ func runC11(c *Ctx, scAny any) {
 				for i := 0; i < sc.Len; i++ {
 					forged[rng.IntN(n)] ^= byte(1 + rng.IntN(255))
 				}
-				modDesc = fmt.Sprintf("%d random byte edits", sc.Len)
+				// which bytes ended up different (edits may hit one byte twice)
+				var diff []int
+				for i := range msg {
+					if forged[i] != msg[i] {
+						diff = append(diff, i)
+					}
+				}
+				editCls = "edit"
+				if len(diff) > 0 && diff[len(diff)-1] <= 13 && diff[0] >= 12 {
+					// confined to the two header bytes outside the authenticated data:
+					// the same input class as a bit flip there
+					editCls = fmt.Sprintf("flip@hdr[%d]", diff[0])
+				}
+				modDesc = fmt.Sprintf("%d random byte edits, bytes %v differ", sc.Len, diff)
 			case "rekey":
 				k2 := sw.Key
 				k2[rng.IntN(32)] ^= 1 << rng.IntN(8)
@@ -255,6 +269,9 @@ func runC11(c *Ctx, scAny any) {
 			d1 := digest()
 			if sc.Method != 0 && d1 != d0 {
 				cls := sc.Mod
+				if sc.Mod == "edit" {
+					cls = editCls
+				}
 				if sc.Mod == "flip" {
 					b := sc.Bit % (n * 8)
 					cls = "flip@" + c11PosClass(b/8, n, sc.Method)
